@@ -78,7 +78,10 @@ def check(run, project):
     # from the selector itself (an error built from another object fails in its own constructor / text form: an internal
     # error where the documented abort belongs)
     from .c04 import v6_union
-    v6_union(run, _MR(project), rule="Y9")
+    try:
+        v6_union(run, _MR(project), rule="Y9")
+    except AnalysisError as ex:
+        run.info(f"Y9: the union walker's value error could not be followed ({ex}); not judged here (C04 reports it)")
     lg = WarnLedger(run, project, "warn")
     counts = {}
     for s in lg.sites:
